@@ -27,18 +27,18 @@ Proof.
 Qed.
 
 (* the checker, for the database *)
-Theorem db_lin_check_iff cs live disk g h :
-  db_lin_check cs live disk g h = true <->
-  linearizable (lin_db_step cs) result_beq (fun s => fin_ok live disk g s = true) start h.
+Theorem db_lin_check_iff cs s0 live disk g h :
+  db_lin_check cs s0 live disk g h = true <->
+  linearizable (lin_db_step cs) result_beq (fun s => fin_ok live disk g s = true) s0 h.
 Proof. apply lin_check_iff. Qed.
 
 (* the one-mutex design, for the database: any interleaving of invocations, atomic
    [db_step]s and responses yields a history the checker accepts against the final
    shared state *)
-Theorem db_atomic_steps_linearizable cs tr m h :
-  mrun (lin_db_step cs) (minit lop (result V) start) tr = Some m -> complete m ->
+Theorem db_atomic_steps_linearizable cs s0 tr m h :
+  mrun (lin_db_step cs) (minit lop (result V) s0) tr = Some m -> complete m ->
   Permutation h (history_of (fun r => r) m) ->
-  linearization (lin_db_step cs) result_beq (fun s => s = m_sh m) start h (history_of (fun r => r) m).
+  linearization (lin_db_step cs) result_beq (fun s => s = m_sh m) s0 h (history_of (fun r => r) m).
 Proof. apply atomic_steps_linearizable. exact result_beq_refl. Qed.
 
 Lemma vers_beq_refl (l : list (N * V)) : vers_beq l l = true.
@@ -56,13 +56,13 @@ Qed.
 
 (* no false alarm on the design: the history of ANY execution of the atomic-step machine
    over the database model, with the dump of its final state, is accepted by the checker *)
-Theorem db_design_accepted cs tr m h :
-  mrun (lin_db_step cs) (minit lop (result V) start) tr = Some m -> complete m ->
+Theorem db_design_accepted cs s0 tr m h :
+  mrun (lin_db_step cs) (minit lop (result V) s0) tr = Some m -> complete m ->
   Permutation h (history_of (fun r => r) m) ->
-  db_lin_check cs (live_of (kv (m_sh m))) (disk_of (kv (m_sh m))) (gen (m_sh m)) h = true.
+  db_lin_check cs s0 (live_of (kv (m_sh m))) (disk_of (kv (m_sh m))) (gen (m_sh m)) h = true.
 Proof.
   intros R C P. apply db_lin_check_iff. exists (history_of (fun r => r) m).
-  destruct (db_atomic_steps_linearizable cs tr m h R C P) as (P' & RT & L & F).
+  destruct (db_atomic_steps_linearizable cs s0 tr m h R C P) as (P' & RT & L & F).
   split; [exact P'|]. split; [exact RT|]. split; [exact L|].
   rewrite F. unfold fin_ok. rewrite live_beq_refl, disk_beq_refl, N.eqb_refl. reflexivity.
 Qed.
